@@ -335,5 +335,43 @@ func c20(r *engine.Report, p *engine.Program) {
 			okp, why := errorPropagates(prn, ci.(*ssa.Call))
 			r.Check("R5-exact-match", "ParseReceptorNamesFromCert: decode error propagates", ci.Pos(), okp, why, why)
 		}
+		// the verifier judges each certificate on the names decoded from it in that handshake
+		if rvf := p.Func("netceptor.ReceptorVerifyFunc"); rvf != nil && len(rvf.AnonFuncs) > 0 {
+			V := rvf.AnonFuncs[0]
+			var found ssa.Value
+			calls := callsTo(V, "utils.ParseReceptorNamesFromCert")
+			for _, ci := range calls {
+				for _, v := range callResult(ci.(*ssa.Call), 0) {
+					found = v
+				}
+			}
+			isHT := func(v ssa.Value) bool {
+				if u, ok := v.(*ssa.UnOp); ok && u.Op == token.MUL {
+					v = u.X
+				}
+				fv, ok := v.(*ssa.FreeVar)
+				return ok && fv.Name() == "expectedHostnameType"
+			}
+			_, notReceptor := engine.IntCmpEdges(V, isHT, -100, token.EQL, constIntVal(p.Const("netceptor", "ExpectedHostnameTypeReceptor")))
+			okV := found != nil && len(calls) == 1
+			why := "the verifier no longer calls ParseReceptorNamesFromCert exactly once"
+			if okV {
+				fT, _ := engine.CondEdges(V, func(c ssa.Value) (bool, bool) { return c == found, true })
+				cut := engine.EdgeSet{}.Add(notReceptor...).Add(fT...)
+				if len(fT) == 0 || engine.Reach(V, nil, cut, nil, func(in ssa.Instruction) bool {
+					ret, ok := in.(*ssa.Return)
+					return ok && len(ret.Results) == 1 && engine.IsNilConst(ret.Results[0])
+				}) != nil {
+					okV = false
+					why = "in receptor mode the verifier can accept without the 'found' result of ParseReceptorNamesFromCert(leaf, expected) of this handshake being true"
+				}
+			}
+			if g := verifierGlobals(p, V); okV && len(g) > 0 {
+				okV = false
+				why = "the verdict depends on package-level state (" + strings.Join(g, "; ") + "): a certificate can be judged by the names of another one"
+			}
+			r.Check("R5-exact-match", "ReceptorVerifyFunc$1: accepted only for a name decoded from the presented leaf in this handshake", V.Pos(), okV,
+				"success in receptor mode requires found == true from ParseReceptorNamesFromCert(certs[0], expectedHostname) called in the same invocation; no package-level state is touched", why)
+		}
 	}
 }
